@@ -436,9 +436,10 @@ type vfC14Rx struct {
 	readErr    error
 	readerDone chan struct{}
 
-	caseID string
-	trail  []map[string]any // last steps, for witnesses
-	steps  int
+	caseID   string
+	lastFrom string
+	trail    []map[string]any // last steps, for witnesses
+	steps    int
 
 	model   map[vfC14Key]*vfC14Ent
 	perSrc  map[string]int         // model entries per source
@@ -497,6 +498,7 @@ func (rx *vfC14Rx) raw(wire []byte, from net.Addr) []vfC14Delivery {
 	}
 	synctest.Wait()
 	rx.steps++
+	rx.lastFrom = from.String()
 	rx.k.Count("ev_frames_fed", 1)
 	rx.mu.Lock()
 	d := rx.got
@@ -535,6 +537,14 @@ func (rx *vfC14Rx) violation(key string, extra map[string]any, format string, ar
 // It returns the pending keys (only when wantKeys).
 func (rx *vfC14Rx) census(wantKeys bool) (total int, keys map[vfC14Key]bool) {
 	g := rx.g
+	if !wantKeys && rx.steps%32 != 0 {
+		g.mu.Lock()
+		big := len(g.reassembly) > 512
+		g.mu.Unlock()
+		if big {
+			return rx.censusFast(), nil
+		}
+	}
 	g.mu.Lock()
 	total = len(g.reassembly)
 	cen := make(map[string]int, len(g.perSource))
@@ -583,6 +593,43 @@ func (rx *vfC14Rx) census(wantKeys bool) (total int, keys map[vfC14Key]bool) {
 	return total, keys
 }
 
+// censusFast is used on big tables (floods) between full censuses (every 32nd step is a full one):
+// overall bound, sum(perSource) == len(reassembly), no source above 8, and an exact census of the one
+// source whose datagram was just processed (its 256 possible keys are looked up).
+func (rx *vfC14Rx) censusFast() int {
+	g := rx.g
+	g.mu.Lock()
+	total := len(g.reassembly)
+	sum, worst, worstSrc := 0, 0, ""
+	for a, n := range g.perSource {
+		sum += n
+		if n > worst {
+			worst, worstSrc = n, a
+		}
+	}
+	own, ownPS := 0, g.perSource[rx.lastFrom]
+	for id := 0; id < 256; id++ {
+		if _, ok := g.reassembly[reassemblyKey{addr: rx.lastFrom, msgID: uint8(id)}]; ok {
+			own++
+		}
+	}
+	g.mu.Unlock()
+	rx.k.Count("ev_census", 1)
+	if sum != total || own != ownPS {
+		rx.violation("gecko:perSource-drift", map[string]any{"sum_perSource": sum, "table": total, "source": rx.lastFrom, "perSource": ownPS, "census": own},
+			"after step %d: sum(perSource)=%d, table holds %d; source %s: perSource=%d, table=%d", rx.steps, sum, total, rx.lastFrom, ownPS, own)
+	}
+	if worst > vfC14PerSource || own > vfC14PerSource {
+		rx.violation("gecko:per-source-bound", map[string]any{"source": worstSrc, "pending": worst},
+			"%d messages pending for source %s after step %d (bound 8)", worst, worstSrc, rx.steps)
+	}
+	if total > vfC14Global {
+		rx.violation("gecko:global-bound", map[string]any{"pending": total},
+			"%d messages pending overall after step %d (bound 4096)", total, rx.steps)
+	}
+	return total
+}
+
 // register records a message as written by its source (oracle: anything delivered from that source
 // must be byte-identical to one of these).
 func (rx *vfC14Rx) register(m *vfC14Msg) { rx.sources[m.SrcS] = append(rx.sources[m.SrcS], m) }
@@ -596,17 +643,19 @@ func (rx *vfC14Rx) genuine(d vfC14Delivery) bool {
 	return false
 }
 
-// purge forgets model entries that can no longer be pending (age since the last accepted chunk
-// >= TTL + one GC period), after checking that the real table forgot them too.
+// purge forgets model entries that can no longer be pending, after checking that the real table forgot
+// them too. The TTL of a message runs from its FIRST chunk (the deadline is fixed when the entry is
+// created; "an incomplete message is forgotten after its TTL, whatever an attacker sends"): frames that
+// arrive later for the same key - duplicates in particular - are not activity that keeps it alive.
 func (rx *vfC14Rx) purge(now time.Time, keys map[vfC14Key]bool) {
 	for key, e := range rx.model {
-		if now.Sub(e.lastAt) > vfC14Gone {
+		if now.Sub(e.firstAt) > vfC14Gone {
 			if keys != nil && keys[key] {
 				if _, t := rx.taint[key]; !t {
 					rx.violation("gecko:not-forgotten-after-ttl", map[string]any{"source": key.src, "msg_id": key.id,
-						"age_ms": now.Sub(e.lastAt).Milliseconds()},
-						"incomplete message (source %s, id %d) still pending %v after its last chunk (TTL 8s + GC period 4s)",
-						key.src, key.id, now.Sub(e.lastAt))
+						"age_ms": now.Sub(e.firstAt).Milliseconds(), "since_last_frame_ms": now.Sub(e.lastAt).Milliseconds()},
+						"incomplete message (source %s, id %d) still pending %v after its first chunk (TTL 8s + GC period 4s); last frame with that key %v ago",
+						key.src, key.id, now.Sub(e.firstAt), now.Sub(e.lastAt))
 				}
 			}
 			rx.k.Count("ev_expired_checked", 1)
@@ -652,7 +701,7 @@ func (rx *vfC14Rx) wouldBeJudged(m *vfC14Msg) bool {
 		return false
 	}
 	e := rx.model[key]
-	if e != nil && now.Sub(e.lastAt) > vfC14Gone {
+	if e != nil && now.Sub(e.firstAt) > vfC14Gone {
 		e = nil
 	}
 	if e != nil {
@@ -666,7 +715,7 @@ func (rx *vfC14Rx) pendingModel(src string, now time.Time) int {
 	// model does not know (tainted)
 	n := 0
 	for key, e := range rx.model {
-		if key.src == src && now.Sub(e.lastAt) <= vfC14Gone {
+		if key.src == src && now.Sub(e.firstAt) <= vfC14Gone {
 			n++
 		}
 	}
